@@ -530,7 +530,6 @@ func (c *FnCtx) assignedIn(st *State, body ast.Node, extra ...ast.Node) (map[typ
 	cells := false
 	root := func(e ast.Expr) {
 		contentsOnly := false
-		first := true
 		for {
 			switch x := e.(type) {
 			case *ast.ParenExpr:
@@ -539,25 +538,18 @@ func (c *FnCtx) assignedIn(st *State, body ast.Node, extra ...ast.Node) (map[typ
 			case *ast.SelectorExpr:
 				e = x.X
 				contentsOnly = false
-				first = false
 				continue
 			case *ast.IndexExpr:
-				if first {
-					contentsOnly = true
-				}
-				first = false
+				// whatever is written above an index (a[i] = v, a[i].f = v) changes the contents of the indexed value only
+				contentsOnly = true
 				e = x.X
 				continue
 			case *ast.SliceExpr:
-				if first {
-					contentsOnly = true
-				}
-				first = false
+				contentsOnly = true
 				e = x.X
 				continue
 			case *ast.StarExpr:
 				e = x.X
-				first = false
 				continue
 			case *ast.Ident:
 				if o := c.prog.Info.ObjectOf(x); o != nil {
